@@ -88,7 +88,10 @@ def random_pipeline(rng, n_pumps=None, slurry=None, entrance_zero=None, dia_choi
     for i in range(n_pipes):
         d = rng.choice(dias)
         if i == 0 and zero_first:
-            secs.append(Pipe(f'Entrance', d, 0.0, rng.choice([0.0, 0.5, 1.0]), rng.uniform(-15.0, -1.0)))
+            # suction submergence mostly; the documented lift range -15..+10 m also allows a mouth at or above the water line
+            r0 = rng.random()
+            z0 = rng.uniform(-15.0, -1.0) if r0 < 0.6 else (rng.uniform(0.5, 10.0) if r0 < 0.8 else (0.0 if r0 < 0.87 else rng.uniform(-1.0, 1.0)))
+            secs.append(Pipe(f'Entrance', d, 0.0, rng.choice([0.0, 0.5, 1.0]), z0))
             continue
         r = rng.random()
         L = 0.0 if (r < 0.12 and 0 < i < n_pipes - 1) else (rng.uniform(1.0, 50.0) if r < 0.5 else rng.uniform(50.0, 3000.0))
